@@ -260,6 +260,11 @@ MUTATIONS += [
     dict(id="C14-merge-equal-always-replaced", prop="C14", file=RS, old="                            || node.is_special()\n                        {", new="                            || node.is_special()\n                            || node.is_file()\n                        {"),
 ]
 
+MUTATIONS += [
+    dict(id="C08-fromfile-header-slice-off-by-one", prop="C08", file=PFILE, old="            data.split_off((size_guess - size_real) as usize)", new="            data.split_off((size_guess - size_real + 1).min(size_guess) as usize)"),
+    dict(id="C08-fromfile-reread-wrong-offset", prop="C08", file=PFILE, old="            let offset = pack_size - size_real - constants::LENGTH_LEN;", new="            let offset = pack_size - size_real;"),
+]
+
 HARMLESS = [
     dict(id="H-C05-trees-symlink-continue", prop="C05", file=CK, old="        for node in tree.nodes {\n            match node.node_type {", new="        for node in tree.nodes {\n            if node.node_type == NodeType::Symlink {\n                continue;\n            }\n            match node.node_type {"),
 ]
